@@ -4,7 +4,7 @@ import os
 
 from lib.vlib import gZ, gN, gnat, gbool, glist, gbytes, gopt, gpair
 
-HDR = "From SioV Require Import Base.GoSem Sio.Header Sio.Decoder Sio.DecoderCheck.\n"
+HDR = "From SioV Require Import Base.GoSem Sio.Header Sio.Decoder Sio.DecoderDispatch Sio.DecoderCheck.\n"
 OC = {"panic": "OPanic", "err": "OErr", "more": "OMore", "fin": "OFin", "ok": "OFin"}
 
 
@@ -52,6 +52,8 @@ def finding_class(r):
         return "decode-panic"
     if r["hdr"] is not None and r["hdr"]["att"] < 0:
         return "negative-attachment-count"
+    if r["outs"][-1:] == ["more"]:
+        return "decoder-wedged"
     return None
 
 
@@ -114,11 +116,117 @@ def decoder_suite(ctx, vh, name, args, shard):
                        "case": r, "n_disagree": len(bad_agree)}, no_input=True)
 
 
+def live_term(r):
+    return "(mkLive %s %s %s %s %s %s %s)" % (
+        case_term(r["dec"]), gbytes(r["fam"].encode()), gbool(r["handler"]), gbool(r["errh"]),
+        gbool(r["closed"]), gbool(r["healthy"]), gbool(r["later"]))
+
+
+def live_run(ctx, vh, classes=None):
+    """-> (rows by class index, crashed class (index, name) or None, total classes)"""
+    args = ["siodecode", "-mode", "live", "-out", os.path.join(ctx.work, "live-%s.jsonl" % (classes or "all"))]
+    if classes is not None:
+        args += ["-classes", classes]
+    rc, text = ctx.vh(vh, args, timeout=600)
+    rows, started, done, total = {}, None, set(), None
+    for line in text.splitlines():
+        if line.startswith("LIVE-ROW "):
+            r = json.loads(line[9:])
+            rows[r["index"]] = r
+        elif line.startswith("LIVE-CLASSES "):
+            total = int(line.split()[1])
+        elif line.startswith("LIVE-START "):
+            parts = line.split()
+            started = (int(parts[1]), parts[2])
+        elif line.startswith("LIVE-DONE "):
+            done.add(int(line.split()[1]))
+    crashed = None
+    if rc != 0:
+        if started is not None and started[0] not in done:
+            crashed = (started[0], started[1], text[-1500:])
+        else:
+            raise RuntimeError("live rig failed (rc=%d): %s" % (rc, text[-1500:]))
+    return rows, crashed, total
+
+
+def live_suite(ctx, vh):
+    rows, crashes = {}, []
+    pending = None
+    for _ in range(40):
+        got, crashed, total = live_run(ctx, vh, pending)
+        rows.update(got)
+        if crashed is None:
+            break
+        crashes.append(crashed)
+        if total is None:
+            break
+        rest = [i for i in range(crashed[0] + 1, total)]
+        if not rest:
+            break
+        pending = ",".join(map(str, rest))
+    for idx, cname, tail in crashes:
+        ctx.count(1, nontrivial_key=("live", cname), dist="live:process-crash")
+        ctx.fail_or_known("process-crash", "live: frames of class %r sent by a raw peer terminated the server process "
+                          "(decoding runs on a goroutine without recover): %s" % (cname, tail[-300:].replace("\n", " | ")),
+                          {"kind": "failing-input", "engine": "siodecode -mode live -classes %d" % idx, "class": cname,
+                           "log_tail": tail})
+    order = sorted(rows)
+    hdr = HDR
+    bad_o = set(ctx.coq_eval_cases("c10_live_oracle", hdr, [live_term(rows[i]) for i in order], "live_oracle", shard=100))
+    bad_a = set(ctx.coq_eval_cases("c10_live_agree", hdr, [live_term(rows[i]) for i in order], "live_agree", shard=100))
+    # environmental noise (a slow connect under load) must not raise an alarm: a class that fails is run again
+    # alone, twice; only a failure that reproduces every time counts
+    for attempt in range(2):
+        redo = sorted({order[j] for j in (bad_o | bad_a)})
+        if not redo:
+            break
+        got, crashed, _ = live_run(ctx, vh, ",".join(map(str, redo)))
+        if crashed is not None:
+            break
+        for i in redo:
+            if i in got:
+                rows[i] = got[i]
+        terms = [live_term(rows[i]) for i in redo]
+        bo = set(ctx.coq_eval_cases("c10_live_oracle_r%d" % attempt, hdr, terms, "live_oracle", shard=100))
+        ba = set(ctx.coq_eval_cases("c10_live_agree_r%d" % attempt, hdr, terms, "live_agree", shard=100))
+        ctx.indeterminate += len(redo) - len(bo | ba)
+        bad_o = {order.index(redo[j]) for j in bo}
+        bad_a = {order.index(redo[j]) for j in ba}
+    for i in order:
+        r = rows[i]
+        react = "+".join(k for k in ("handler", "errh", "closed") if r[k]) or "nothing"
+        ctx.count(1, nontrivial_key=("live", r["class"]), dist="live:" + react)
+    if order:
+        r = rows[order[len(order) // 2]]
+        ctx.sample({"suite": "siodecode/live", "class": r["class"], "frames": [bytes(f).decode("latin-1") for f in r["frames"]],
+                    "handler": r["handler"], "errh": r["errh"], "closed": r["closed"], "healthy": r["healthy"], "later": r["later"]})
+    ctx.obligation("correspondence:siodecode/live", "correspondence", not bad_a and not crashes,
+                   "%d classes, %d disagree with the dispatch model, %d crashed the process" % (len(order), len(bad_a), len(crashes)))
+    ctx.obligation("oracle:siodecode/live", "oracle", not bad_o and not crashes,
+                   "%d classes, %d fail" % (len(order), len(bad_o)))
+    for j in sorted(bad_o):
+        r = rows[order[j]]
+        ctx.fail_or_known(None, "live: after a raw peer sent %r (class %s) the server reacted with handler=%s errorHandler=%s closed=%s; "
+                          "healthy connection usable=%s, later connection usable=%s - a rejected frame must be reported and must not "
+                          "reach the handler, and other connections must keep working"
+                          % ([bytes(f).decode("latin-1") for f in r["frames"]], r["class"], r["handler"], r["errh"], r["closed"],
+                             r["healthy"], r["later"]),
+                          {"kind": "failing-input", "engine": "siodecode -mode live -classes %d" % r["index"], "case": r})
+    if bad_a and not bad_o and not crashes:
+        r = rows[order[sorted(bad_a)[0]]]
+        ctx.violation("live: the server's reaction to class %s (handler=%s errorHandler=%s closed=%s) is not what the dispatch model "
+                      "Sio/DecoderDispatch.v computes (C10_error_is_reported is about the model)"
+                      % (r["class"], r["handler"], r["errh"], r["closed"]),
+                      {"kind": "correspondence-broken", "suite": "siodecode/live",
+                       "theorems": ["C10_error_is_reported", "C10_decode_error_goes_to_error_handlers"], "case": r}, no_input=True)
+
+
 def run(ctx):
     ctx.rule = ("siodecode: fixed corpus (pre-fix crashers, boundary counts/ids/placeholders) x 9 handler families; every string of "
                 "length <=3 (quick) / <=5 (thorough) over 14 protocol-significant bytes through Parser.Add, pending packets completed "
                 "with arbitrary frames, finished packets decoded against every family; seeded grammar-aware mutations of valid "
-                "packets; non-trivial = header accepted or packet pending (distinct (frames, maxAttachments, family))")
+                "packets; live: 27 malformed/valid classes sent by a raw peer to a real server next to a healthy connection; "
+                "non-trivial = header accepted or packet pending (distinct (frames, maxAttachments, family)), each live class")
     ctx.trusted = ["Coq 8.16.1 kernel + vm_compute",
                    "hand-written models Sio/Header.v, Sio/Decoder.v tied by kernel-evaluated correspondence",
                    "harness cmd/vh siodecode (recording JSON wrapper, shape extraction by reflection)",
@@ -132,4 +240,5 @@ def run(ctx):
         return
     decoder_suite(ctx, vh, "corpus", ["-mode", "corpus"], 400)
     decoder_suite(ctx, vh, "exhaustive", ["-mode", "exhaustive", "-maxlen", "3" if ctx.quick else "5", "-workers", "16"], 600)
+    live_suite(ctx, vh)
     decoder_suite(ctx, vh, "mutate", ["-mode", "mutate", "-seed", ctx.seed, "-n", 1000 if ctx.quick else 30000], 250)
